@@ -183,6 +183,7 @@ func runC10Rich(r *Run) {
 		deadlines: []time.Duration{5 * ms, time.Hour}, cancelPct: 40, cancelTimes: []time.Duration{ms, 2 * ms, 3 * ms},
 		backlogs: []int{4}, limits: []int{1, 2}, relTimes: []time.Duration{0, ms, 2 * ms, 3 * ms},
 		preHeldAll: true, cancelOnReleasePct: 65,
+		ctxDeadlinePct: 15, ctxDeadlines: []time.Duration{ms / 2, ms + ms/2, 2*ms + ms/2, 700 * ms},
 	})
 	if sc == nil {
 		return
